@@ -781,7 +781,11 @@ func (w *w14) flushLike(call string, isClose bool, inject bool) {
 		case k == OpWrite || k == OpSync || k == OpRemove:
 			nth = 1 + t.Draw("fault_nth", 2)
 		}
-		w.disk.ArmFault(k, nth, t.Draw("fault_short", 2) == 1)
+		mode := t.Draw("fault_short", 3) // 0: nothing written, 1: a strict prefix, 2: everything written - and the error reported all the same
+		w.disk.ArmFault(k, nth, mode == 1)
+		if mode == 2 && k == OpWrite {
+			w.disk.FailFull = true
+		}
 	}
 	ops0 := w.disk.NOps()
 	var err error
